@@ -20,7 +20,7 @@ MCFoldTable == [Root |-> "root", ROOT |-> "root", root |-> "root", Inner |-> "in
                 Panel |-> "panel", Zed |-> "zed", Options |-> "options", Copy |-> "copy", Renamed |-> "renamed",
                 QPanel |-> "qpanel", TAGS |-> "tags", tags |-> "tags", Flag |-> "flag", flag |-> "flag", NAME |-> "name",
                 name |-> "name", OPTS |-> "opts", opts |-> "opts", INNER |-> "inner", Tags |-> "tags", LABELS |-> "labels", labels |-> "labels",
-                FLAG |-> "flag", copy |-> "copy", Copy2 |-> "copy2", Renamed2 |-> "renamed2", Uu |-> "uu", innerY |-> "innery", Missing |-> "missing", X |-> "x", x |-> "x"]
+                FLAG |-> "flag", copy |-> "copy", ZZ |-> "zz", zz |-> "zz", Copy2 |-> "copy2", Renamed2 |-> "renamed2", Uu |-> "uu", innerY |-> "innery", Missing |-> "missing", X |-> "x", x |-> "x"]
 MCSingular == [tags |-> "tag", labels |-> "label", items |-> "item"]
 MCLCamel   == [Inner |-> "inner", string |-> "string", bool |-> "bool"]
 
@@ -65,7 +65,11 @@ Pool == <<
   \* an empty collection is a default too
   Field("arre", WithDef(TArray(TString), [t |-> "[]interface {}", s |-> "[]"]), TRUE),
   Field("mape", AsNullable(WithDef(TMap(TString, TString), [t |-> "map[string]interface {}", s |-> "{}"])), FALSE),
-  Field("rse",  WithDef(TRef("p", "Other"), [t |-> "map[string]interface {}", s |-> "{}"]), TRUE)
+  Field("rse",  WithDef(TRef("p", "Other"), [t |-> "map[string]interface {}", s |-> "{}"]), TRUE),
+  \* falsy defaults are defaults; constraint arguments are copied verbatim (negative, fractional)
+  Field("bf",   WithDef(TScalar("bool"), VBool(FALSE)), TRUE),
+  Field("i0",   WithDef(TScalarC("int64", VNil, <<Con(">=", VInt("-1")), Con("<", [t |-> "float64", s |-> "2.5"])>>), VInt("0")), FALSE),
+  Field("se",   AsNullable(WithDef(TString, VStr(""))), FALSE)
 >>
 NPool == Len(Pool)
 
@@ -86,7 +90,7 @@ CrossPkg16 == <<Obj("p", "Datasource", TRef("p", "TargetAlias")), Obj("p", "Targ
                 Obj("p", "Mode", TStruct(<<Field("m", TString, TRUE)>>)),
                 Obj("p", "KQ", TString),
                 Obj("p", "Holder", TStruct(<<Field("viaAlias", TRef("p", "KQAlias"), TRUE)>>)), Obj("p", "KQAlias", TRef("q", "KQ"))>>
-Variants == 1..6
+Variants == 1..7
 Main(fs) == Obj("p", "Main", TStruct([i \in DOMAIN fs |-> Pool[fs[i]]]))
 PObjects(fs, v) ==
   CASE v = 1 -> <<Main(fs)>> \o Support16
@@ -98,7 +102,10 @@ PObjects(fs, v) ==
     [] v = 6 -> <<Main(fs)>> \o Support16 \o CrossPkg16
     [] v = 4 -> <<Main(fs)>> \o Support16           \* package q is not loaded: references into it do not resolve
     [] OTHER -> <<Main(fs)>> \o Support16 \o <<Obj("p", "AliasGone", TRef("q", "QS"))>>   \* alias of an object that is not loaded
+Rev(q) == [i \in DOMAIN q |-> q[Len(q) + 1 - i]]
+\* variant 7: variant 6 with the packages and every package's objects declared in the reverse order
 S16(c) == IF c.variant \in {4, 5} THEN <<SchemaOf("p", PObjects(c.fields, c.variant))>>
+          ELSE IF c.variant = 7 THEN <<[QSchema16 EXCEPT !.objects = Rev(@)], SchemaOf("p", Rev(PObjects(c.fields, 6)))>>
           ELSE <<SchemaOf("p", PObjects(c.fields, c.variant)), QSchema16>>
 Cases16 == {[fields |-> <<i>>, variant |-> v] : i \in 1..NPool, v \in Variants}
            \cup {[fields |-> <<i, j>>, variant |-> v] : <<i, j, v>> \in {<<a, b, w>> \in (1..NPool) \X (1..NPool) \X Variants :
@@ -126,15 +133,18 @@ RootT  == TStruct(<<
    Field("items",  TArray(TRef("p", "Inner")), FALSE)>>)
 PanelT == TStruct(<<Field("type", TString, TRUE), Field("opts", TScalar("any"), FALSE)>>)
 S17 == <<SchemaOf("p", <<Obj("p", "Root", RootT), Obj("p", "Inner", InnerT), Obj("p", "U", UT), Obj("p", "Panel", PanelT)>>),
-         [SchemaOf("q", <<Obj("q", "Options", TStruct(<<Field("o1", TString, TRUE)>>))>>)
+         \* q.Inner: the same bare name as p.Inner with another definition (selectors name the package)
+         [SchemaOf("q", <<Obj("q", "Options", TStruct(<<Field("o1", TString, TRUE)>>)), Obj("q", "Inner", TStruct(<<Field("z", TScalar("bool"), TRUE)>>))>>)
             EXCEPT !.meta = [kind |-> "composable", variant |-> "panelcfg", id |-> "qid"]]>>
 \* the same plus a struct whose only field is a constant: its builder has no option
 S17b == <<[S17[1] EXCEPT !.objects = Append(@, Obj("p", "Marker", TStruct(<<Field("kind", TConst("string", VStr("m")), TRUE)>>)))], S17[2]>>
 \* the same plus a chain of nested structs: assignment paths of four segments with sibling leaves
 S17c == <<[S17[1] EXCEPT !.objects = [@ EXCEPT ![1] = Obj("p", "Root", [RootT EXCEPT !.fields = Append(@, Field("deep", TRef("p", "L1"), TRUE))])]
-                                     \o <<Obj("p", "L1", TStruct(<<Field("l2", TRef("p", "L2"), TRUE), Field("n", TString, FALSE)>>)),
+                                     \o <<Obj("p", "L1", TStruct(<<Field("l2", TRef("p", "L2"), TRUE), Field("n", TString, FALSE), Field("al", TRef("p", "L3Alias"), FALSE)>>)),
+                                          Obj("p", "L3Alias", TRef("p", "L3")),
                                           Obj("p", "L2", TStruct(<<Field("l3", TRef("p", "L3"), TRUE)>>)),
-                                          Obj("p", "L3", TStruct(<<Field("a", TString, TRUE), Field("b", TScalar("bool"), FALSE), Field("c", TArray(TString), FALSE)>>))>>],
+                                          Obj("p", "L3", TStruct(<<Field("a", TString, TRUE), Field("b", TScalar("bool"), FALSE), Field("c", TArray(TString), FALSE),
+                                                                  Field("id", TScalar("int64"), FALSE), Field("ID", TString, FALSE)>>))>>],
           S17[2]>>
 CONSTANTS Chains,            \* C17: the nested schema set and the alphabet of path-lengthening rules only
           WithMarker,        \* C17: add an object whose builder has no option
@@ -170,12 +180,13 @@ BR(r, sel) == [kind |-> "b", r |-> r, sel |-> sel]
 BParams(sel) ==
   {BR("omit", sel),
    BR("rename", sel) @@ [as |-> "Renamed"],
-   BR("properties", sel) @@ [set |-> <<Field("prop", TString, TRUE)>>],
+   BR("properties", sel) @@ [set |-> <<Field("prop", TString, TRUE), Field("prop2", TRef("p", "Inner"), FALSE)>>],
    BR("duplicate", sel) @@ [as |-> "Copy", exclude |-> <<>>],
    BR("duplicate", sel) @@ [as |-> "Copy", exclude |-> <<"TAGS", "x">>],
-   BR("initialize", sel) @@ [set |-> <<[path |-> <<"name">>, value |-> VStr("init")]>>],
+   BR("initialize", sel) @@ [set |-> <<[path |-> <<"name">>, value |-> VStr("init")], [path |-> <<"flag">>, value |-> VBool(FALSE)]>>],
    BR("initialize", sel) @@ [set |-> <<[path |-> <<"inner", "x">>, value |-> VStr("ix")]>>],
    BR("promote", sel) @@ [options |-> <<"name">>],
+   BR("promote", sel) @@ [options |-> <<>>],
    BR("promote", sel) @@ [options |-> <<"NAME", "flag", "zz">>],
    BR("add_option", sel) @@ [option |-> AddOpt1],
    BR("add_option", sel) @@ [option |-> AddOpt2],
@@ -185,6 +196,7 @@ BParams(sel) ==
 MergeParams(sel) ==
   {BR("merge_into", sel) @@ [source |-> "Inner", under |-> <<"inner">>, exclude |-> <<>>, rename |-> <<>>],
    BR("merge_into", sel) @@ [source |-> "Inner", under |-> <<"inner">>, exclude |-> <<"x">>, rename |-> <<[from |-> "y", to |-> "innerY"]>>],
+   BR("merge_into", sel) @@ [source |-> "Inner", under |-> <<"inner">>, exclude |-> <<"zz", "ZZ">>, rename |-> <<[from |-> "x", to |-> "y"], [from |-> "y", to |-> "x"]>>],
    BR("merge_into", sel) @@ [source |-> "Missing", under |-> <<"inner">>, exclude |-> <<>>, rename |-> <<>>],
    BR("merge_into", sel) @@ [source |-> "Inner", under |-> <<"zz">>, exclude |-> <<>>, rename |-> <<>>]}
 Compose(sel, src, discr, excl, nm, keep) ==
@@ -217,9 +229,9 @@ OSfo(s, fs) == OR("struct_fields_as_options", s) @@ [fields |-> fs]
 ODisj(s, i) == OR("disjunction_as_options", s) @@ [index |-> i]
 ODup(s)   == OR("duplicate", s) @@ [as |-> "dup"]
 OAdd(s, a) == OR("add_assignment", s) @@ [assign |-> a]
-OCom(s)   == OR("add_comments", s) @@ [comments |-> <<"cmt">>]
-OParams(s) == {OOmit(s), ORen(s), ORenA1(s), ORenA2(s), OA2A(s), OM2I(s), OUnf(s), OSfa(s, <<>>), OSfa(s, <<"y">>),
-               OSfo(s, <<>>), OSfo(s, <<"x">>), ODisj(s, 0), ODisj(s, 1), ODup(s), OAdd(s, AddAsg1), OAdd(s, AddAsg2), OCom(s)}
+OCom(s)   == OR("add_comments", s) @@ [comments |-> <<"cmt", "cmt2">>]
+OParams(s) == {OOmit(s), ORen(s), ORenA1(s), ORenA2(s), OA2A(s), OM2I(s), OUnf(s), OSfa(s, <<>>), OSfa(s, <<"y">>), OSfa(s, <<"y", "x">>),
+               OSfo(s, <<>>), OSfo(s, <<"x">>), OSfo(s, <<"x", "y">>), ODisj(s, 0), ODisj(s, 1), ODup(s), OAdd(s, AddAsg1), OAdd(s, AddAsg2), OCom(s)}
 ORules1 == UNION {OParams(s) : s \in OSels1}
 Rules1 == BRules1 \cup ORules1
 
@@ -256,26 +268,39 @@ R2Full == <<
   OCom(R("tags"))
 >>
 \* path-lengthening rules over the nested schema set: three of them chained give four-segment paths with sibling leaves
-ChainProd == ON("Root", <<"l2", "l3", "n", "a", "b", "c">>)
+ChainProd == ON("Root", <<"l2", "l3", "n", "al", "a", "b", "c">>)
 Merge(src, under) == BR("merge_into", BN("Root")) @@ [source |-> src, under |-> under, exclude |-> <<>>, rename |-> <<>>]
 RChain == <<OSfo(R("deep"), <<>>), OSfo(ChainProd, <<>>), OSfa(ChainProd, <<>>), OSfo(ON("L1", <<"l2">>), <<>>),
-            Merge("L1", <<"deep">>), Merge("L2", <<"deep", "l2">>), Merge("L3", <<"deep", "l2", "l3">>)>>
+            Merge("L1", <<"deep">>), Merge("L2", <<"deep", "l2">>), Merge("L3", <<"deep", "l2", "l3">>),
+            \* property paths spelled in another letter case than the schema's fields, and case-twin fields (id / ID)
+            Merge("L3", <<"Deep", "L2", "l3">>), Merge("L3", <<"deep", "al">>),
+            BR("initialize", BO("p", "Root")) @@ [set |-> <<[path |-> <<"Name">>, value |-> VStr("init")]>>],
+            BR("initialize", BO("p", "Root")) @@ [set |-> <<[path |-> <<"deep", "l2", "l3", "ID">>, value |-> VStr("twin")]>>],
+            BR("add_option", BO("p", "Root")) @@ [option |-> [name |-> "cased", comments |-> <<>>, args |-> <<StrArg("v")>>,
+                 assigns |-> <<[path |-> <<"NAME">>, method |-> "direct", value |-> [k |-> "arg", arg |-> StrArg("v")]]>>]],
+            BR("add_option", BO("p", "L3")) @@ [option |-> [name |-> "twin", comments |-> <<>>, args |-> <<StrArg("v")>>,
+                 assigns |-> <<[path |-> <<"ID">>, method |-> "direct", value |-> [k |-> "arg", arg |-> StrArg("v")]]>>]],
+            OAdd(R("deep"), [path |-> <<"Name">>, method |-> "direct", value |-> [k |-> "const", val |-> VStr("forced")]])>>
 \* thorough tier: selectors spelled in another letter case, by_builder / by_name(builder) / by_variant / from_disjunction
 \* combinations, rules on copies; used for simulated histories of four rules
+ORenAs(s, as) == OR("rename_arguments", s) @@ [as |-> as]
 R2Extra == <<
   OOmit(ON("root", <<"TAGS">>)), ORen(ON("ROOT", <<"INNER">>)), OA2A(OB("ROOT", <<"Tags">>)), OM2I(OB("root", <<"LABELS">>)),
   OUnf(ON("root", <<"FLAG">>)), OSfo(OB("Root", <<"inner">>), <<>>), ODup(OB("Copy", <<"tags">>)), ORenA1(OB("copy", <<"NAME">>)),
   BR("rename", BN("ROOT")) @@ [as |-> "Renamed2"], BR("omit", BN("Copy")),
   BR("duplicate", BN("root")) @@ [as |-> "Copy2", exclude |-> <<"FLAG">>],
   BR("properties", BV("panelcfg")) @@ [set |-> <<Field("prop", TString, TRUE)>>], BR("omit", BD),
-  BR("rename", BO("p", "u")) @@ [as |-> "Uu"]
+  BR("rename", BO("p", "u")) @@ [as |-> "Uu"],
+  OR("rename", R("labels")) @@ [as |-> "TAGS"],             \* two options whose names differ only in letter case
+  ORenAs(SProd, <<>>)                                       \* empty name list on options without arguments
 >>
 CONSTANT Ext
 \* argument wiring: options with two arguments and name lists that swap or shift the old names
-ORenAs(s, as) == OR("rename_arguments", s) @@ [as |-> as]
 RWiring == <<OM2I(R("labels")), OSfa(R("inner"), <<>>), OA2A(R("tags")),
              ORenAs(R("labels"), <<"label", "key">>), ORenAs(R("labels"), <<"label", "value">>), ORenAs(R("labels"), <<"k", "key">>),
-             ORenAs(R("inner"), <<"y", "x">>), ORenAs(R("inner"), <<"y", "z">>), ORenAs(R("tags"), <<"tags">>)>>
+             ORenAs(R("inner"), <<"y", "x">>), ORenAs(R("inner"), <<"y", "z">>), ORenAs(R("tags"), <<"tags">>),
+             \* an option rule in the common set, then the language's promote_options_to_constructor on what it produced
+             BR("promote", BO("p", "Root")) @@ [options |-> <<"tags", "labels", "inner", "name">>]>>
 CONSTANT Wiring
 R2 == IF Chains THEN RChain ELSE IF Wiring THEN RWiring ELSE IF Ext THEN R2Full \o R2Extra ELSE R2Full
 R2All == {R2[i] @@ [lang |-> "all"] : i \in DOMAIN R2}
